@@ -413,6 +413,53 @@ class Program:
             isinstance(d, ast.Name) and d.id == "staticmethod" for d in f.node.decorator_list
         ):
             env[f.params[0]] = concrete or f.cls
+        # locals that can only hold objects of one known class: plain copies of typed names and loop variables over a
+        # display of typed names (`for labware in [source, destination]`, also through a single-definition list name)
+        stores: Dict[str, List[ast.AST]] = {}
+        for n in ast.walk(f.node):
+            if isinstance(n, ast.Name) and isinstance(n.ctx, ast.Store):
+                stores.setdefault(n.id, []).append(n)
+        assigns: Dict[str, ast.AST] = {}
+        loops: Dict[str, ast.AST] = {}
+        for n in ast.walk(f.node):
+            if isinstance(n, ast.Assign) and len(n.targets) == 1 and isinstance(n.targets[0], ast.Name) and len(stores.get(n.targets[0].id, [])) == 1:
+                assigns[n.targets[0].id] = n.value
+            elif isinstance(n, ast.For) and isinstance(n.target, ast.Name) and len(stores.get(n.target.id, [])) == 1:
+                loops[n.target.id] = n.iter
+
+        def cls_of(e, depth=0):
+            if depth > 4:
+                return None
+            if isinstance(e, ast.Name):
+                if e.id in env:
+                    return env[e.id]
+                if e.id in assigns and e.id not in f.params:
+                    return cls_of(assigns[e.id], depth + 1)
+            return None
+
+        def elem_cls(e, depth=0):
+            if depth > 4:
+                return None
+            if isinstance(e, (ast.List, ast.Tuple)) and e.elts:
+                cs = [cls_of(x, depth + 1) for x in e.elts]
+                return cs[0] if cs[0] is not None and all(c is cs[0] for c in cs) else None
+            if isinstance(e, ast.IfExp):
+                a, b = elem_cls(e.body, depth + 1), elem_cls(e.orelse, depth + 1)
+                return a if a is not None and a is b else None
+            if isinstance(e, ast.Name) and e.id in assigns and e.id not in f.params:
+                return elem_cls(assigns[e.id], depth + 1)
+            return None
+
+        for name, it in loops.items():
+            if name not in env and name not in f.params:
+                c = elem_cls(it)
+                if c is not None:
+                    env[name] = c
+        for name, v in assigns.items():
+            if name not in env and name not in f.params and isinstance(v, ast.Name):
+                c = cls_of(v)
+                if c is not None:
+                    env[name] = c
         return env
 
     # --------------------------------------------------------- call resolution
